@@ -3,7 +3,9 @@ import random
 
 # bytes below '/', '/'-adjacent, above, non-ASCII
 NAME_ATOMS = [b"a", b"b", b"ab", b"a-b", b"a.b", b"a b", b"a!", b"a0", b"A", b"z", b"-", b"..a", b"a..", b".a",
-              b"\xc3\xa9", b"\xff", b"a\\b", b"a+", b"a,", b"a\x01", b"foo", b"bar", b"c", b"d", b"a.txt", b"a-", b"a."]
+              b"\xc3\xa9", b"\xff", b"a\\b", b"a+", b"a,", b"a\x01", b"foo", b"bar", b"c", b"d", b"a.txt", b"a-", b"a.",
+              # names made of pattern metacharacters (legal file names; a pattern naming them has to escape them)
+              b"a[1]", b"[z]", b"x*", b"q?"]
 
 
 def name(rng, long_ok=True):
@@ -237,6 +239,8 @@ def disk_tree(rng, max_entries=30, max_depth=5, types=("dir", "file", "symlink",
         if d:
             e["t"] = "dir"
             e["mode"] = rng.choice([0o755, 0o700, 0o1777, 0o2755, 0o750, 0o644, 0o600])
+            if rng.random() < 0.1:
+                e["size"] = 4096        # (in-memory sources only: a directory announced with a size)
         else:
             r = rng.random()
             t = "file"
